@@ -5,8 +5,39 @@ Theorems: lean/GivaroModel/Props/C10.lean about the hand-written model lean/Giva
 Rational / QField<Rational> code in-process; lean/Driver/Rational.lean evaluates model and specification).
 """
 import json
+import os
 
 from vlib import common, report, flow
+from translate import gen_rational
+
+GEN_THMS = "GivaroModel/Generated/RationalThms.lean"
+
+
+def translation_stage(V):
+    """Tie T: regenerate the Lean definitions of the Rational bodies from VERIF_REPO's sources and re-prove
+    `generated body = hand model` for each linked body.  Returns (meta, {theorem: lean error}, build output)."""
+    try:
+        meta = gen_rational.generate()
+    except Exception as e:                      # clang failed / AST shape unknown: the tie cannot be established
+        V.violation("translate_rational", {"obligation": "translate/gen_rational.py regenerates Generated/RationalOps.lean from the sources",
+                                           "what": "%s: %s" % (type(e).__name__, str(e)[-1500:])}, no_failing_input=True)
+        return None, {}, ""
+    ok, out, t = common.lake_build(["GivaroModel.Generated.RationalThms"])
+    failing = {}
+    if not ok:
+        for f, ln, col, msg in common.lean_errors(out):
+            failing.setdefault(flow.theorem_at(f, ln) if f.endswith("RationalThms.lean") else "%s:%d" % (f, ln), msg)
+        if not failing:
+            failing["lake build GivaroModel.Generated.RationalThms"] = out[-1500:]
+    else:
+        names = [f["theorem"] for f in meta["functions"] if f.get("theorem")]
+        axs, missing, txt = common.print_axioms("GivaroModel.Generated.RationalThms", ["Givaro.GenQ." + n for n in names])
+        for n in names:
+            a = axs.get("Givaro.GenQ." + n, axs.get(n))
+            if a is None or a - common.ALLOWED_AXIOMS:
+                failing[n] = "axiom audit: %s" % (sorted(a) if a is not None else "not found by #print axioms")
+    meta["t_build"] = t
+    return meta, failing, out
 
 RULE = ("harness-generated: operands listed in DESIGN.md as failing first; word grids (all pairs) for the word constructors; "
         "big-integer pairs and decimal strings; every class of double (exponent grid x mantissa grid x sign; thorough: every exponent) "
@@ -21,6 +52,8 @@ RULE = ("harness-generated: operands listed in DESIGN.md as failing first; word 
 def run(prop, tier, seed, replay=None):
     V = report.Verdict(prop, tier, seed, "proof")
     V.assumptions = [
+        "tie T (translate/gen_rational.py): a translated Rational body is the symbolic execution of clang-14's AST with the gmp++ Integer bodies "
+        "inlined and the mpz_* calls replaced by the contracts of Prim/Gmp.lean; object lifetime, allocation and the identity of temporaries are not modelled",
         "the Integer layer under Rational (+ - * / gcd pow << floor ceil divmod sign isZero isOne) is exact integer arithmetic: "
         "established per overload by C01/C02, used here as Int operations (Integer::operator/ = truncated quotient, gcd >= 0)",
         "mpz_cmpabs is modelled by its documented contract only (sign of the result); theorems hold for every such function, "
@@ -36,6 +69,7 @@ def run(prop, tier, seed, replay=None):
         "conversions to double/float: mpz_get_d is modelled as truncation to 53 bits, the division and (float) as IEEE-754 round-to-nearest-even; "
         "overflow, subnormal results and non-finite values are outside the model (precondition)",
     ]
+    meta, gen_failing, gen_out = translation_stage(V)
     L = flow.lean_stage(V, ["GivaroModel.Props.C10", "GivaroModel.Props.C10State", "GivaroModel.Props.C10Conv"], "GivaroModel/Props/C10.lean",
                         extra_theorem_files=("GivaroModel/Props/C10State.lean", "GivaroModel/Props/C10Conv.lean"))
     bins = flow.build_harnesses("h_rational", configs=("S", "R") if tier == "thorough" else ("S",))
@@ -45,6 +79,22 @@ def run(prop, tier, seed, replay=None):
             lines = [l.split(" = ")[0] for l in json.load(fh).get("lines", []) if l]
     res = flow.correspond(bins, "rational", lines=lines, harness_args=[] if lines is not None else [tier, str(seed)])
     counts = flow.decide(V, res, known=report.findings_for(prop))
+    # generated theorems that no longer check: reported after the search (the correspondence run above is the search:
+    # a changed body that computes a wrong value shows up there as impl_* with a replay; what is left is reported as thm_*)
+    found_input = any("impl_" in os.path.basename(str(p_)) for p_, nf_ in V.violations if not nf_)
+    for n, msg in sorted(gen_failing.items()):
+        V.violation("thm_%s" % n, {"obligation": "Givaro.GenQ.%s (Generated/RationalThms.lean): the body regenerated from the sources equals the hand model "
+                                                 "of Model/Rational.lean for all inputs" % n,
+                                   "what": "the regenerated body no longer matches the hand model (the C10 theorems speak about the hand model)"
+                                           + ("; the correspondence run of this check reports concrete failing inputs" if found_input else
+                                              "; no failing input found by the correspondence run"),
+                                   "lean_error": msg[:1500]}, no_failing_input=True)
+    if meta is not None:
+        for b in meta.get("link_lost", []):
+            V.violation("lost_%s" % b["name"].replace("operator", "op"), {
+                "obligation": "%s %s is translated and linked to the hand model" % (b["name"], b["type"]),
+                "what": "the body left the translator's dialect or is no longer present",
+                "untranslatable": [u for u in meta["untranslatable"] if u["name"] == b["name"]][:5]}, no_failing_input=True)
     ops = {}
     watched = unobserved = mode0 = 0
     for _, l, _ in res["results"]:
@@ -67,6 +117,13 @@ def run(prop, tier, seed, replay=None):
     flow.fill_coverage(V, L, res, counts, rule=RULE, extra={
         "operations_exercised": ops, "configs": sorted(bins),
         "mode_frame": {"calls_with_watchpoint_on_Rational_flags": watched, "calls_unobserved": unobserved, "calls_made_in_NoReduce_mode": mode0},
+        "translation_tie": None if meta is None else {
+            "bodies_translated": len(meta["functions"]),
+            "linked_to_hand_model_by_generated_theorem": sorted(f["theorem"] for f in meta["functions"] if f.get("theorem")),
+            "translated_without_link": sorted("%s %s" % (f["name"], f["type"]) for f in meta["functions"] if not f.get("theorem")),
+            "hand_modelled_but_link_not_proved (correspondence tie only)": ["%s %s" % (b["name"], b["type"]) for b in meta["hand_modelled_not_linked"]],
+            "outside_the_dialect": ["%s %s (%s:%s): %s" % (b["name"], b["type"], b["file"], b["line"], b["reason"]) for b in meta["untranslatable"]],
+            "generated_theorems_failing": sorted(gen_failing)},
         "uncovered_api": [
             "ratrecon/RationalReconstruction, Rational(f,m,k): C11",
             "malformed text for operator>>: C19",
